@@ -593,7 +593,9 @@ def _chunk(args):
         sweep += [(p_, v_) for p_ in allp for v_ in HOSTILE_LISTS]
         sweep += [(p_, v_) for p_ in allp if isinstance(get_at(tmpl, p_), str) for v_ in HOSTILE_TEXT]
         interior = sorted({p_[:j] for p_ in allp for j in range(1, len(p_))})
-        sweep += [(p_, v_) for p_ in interior for v_ in (None, 1, "x", [], True, {}, {1: 2, "EditGraph": 3}, {None: 1, "a": 0, 2.5: 1}, {(1, 2): 1, "b": {3: 4, "c": 5}})]
+        sweep += [(p_, v_) for p_ in interior for v_ in (None, 1, "x", [], True, {}, {1: 2, "EditGraph": 3}, {None: 1, "a": 0, 2.5: 1}, {(1, 2): 1, "b": {3: 4, "c": 5}},
+                                                         # keys that change when trimmed (a map rebuilt under normalised keys while it is walked)
+                                                         {"EditGraph ": 2}, {" Speak": 1, "Speak": 2, "speak\t": 3})]
         # unknown keys whose names carry line-boundary characters (they are echoed in the messages), under every section
         sweep += [(p_ + (k_,), 1) for p_ in [()] + interior for k_ in ("bad\rkey", "ff\x0ckey", "nel\x85key", "ls\u2028key", "nl\nkey")]
         # unknown keys carrying nested containers with mixed-type / non-string keys, under every section (sections that keep
@@ -627,7 +629,7 @@ def _chunk(args):
         for j, (p_, v_) in enumerate(sweep):
             if j % nchunks != i % nchunks:
                 continue
-            starts = ("tmpl", "empty") + (("tmpl-on",) if (tier != "quick" or any(v_ is h or v_ == h for h in HOSTILE_NUM if type(h) is type(v_))) and len(p_) > 1 else ())
+            starts = ("tmpl", "empty") + (("tmpl-on",) if (tier != "quick" or v_ is None or any(v_ is h or v_ == h for h in HOSTILE_NUM if type(h) is type(v_))) and len(p_) > 1 else ())
             for start in starts:
                 # "tmpl-on": the template with every feature gate open, so that the gated code runs under the accepted value
                 cfg = copy.deepcopy(tmpl) if start == "tmpl" else (copy.deepcopy(tmpl_on) if start == "tmpl-on" else {})
